@@ -316,4 +316,94 @@ example : docRule asciiCls noExt (ruleSentenceCapitalization envSheRan)
 example : docRule asciiCls noExt (ruleCorrectNumberSuffix { env0 with numVal := fun _ => .int 2 }) ['2', 's', 't'] =
     .ok [⟨⟨1, 3⟩, [.replaceWith ['n', 'd']], 9, 0⟩] := by decide
 
+/-! ## Added by the w22 audit: the four rules without a FIRING witness on a document, and all eleven
+composed with `on_documents` -/
+
+/-- `the the cat`: RepeatedWords fires on a real document (span of both words, keep one) -/
+example : docRule asciiCls noExt (ruleRepeatedWords env0) ['t', 'h', 'e', ' ', 't', 'h', 'e', ' ', 'c', 'a', 't'] =
+    .ok [⟨⟨0, 7⟩, [.replaceWith ['t', 'h', 'e']], 5, 0⟩] := by decide
+
+/-- `a "b`: UnclosedQuotes fires on the quote without a twin -/
+example : docRule asciiCls noExt (ruleUnclosedQuotes env0) ['a', ' ', '"', 'b'] = .ok [⟨⟨2, 3⟩, [], 8, 0⟩] := by decide
+
+/-- `a 5 $ 3`: CurrencyPlacement (the whole rule, `remove_overlaps` included) keeps `5 $` and drops
+the overlapping `$ 3` of the candidates above -/
+example : docRule asciiCls noExt (ruleCurrencyPlacement env0) ['a', ' ', '5', ' ', '$', ' ', '3'] =
+    .ok [⟨⟨2, 5⟩, [.replaceWith ['$', '5']], 2, 0⟩] := by decide
+
+-- forty times `a ` then `ok. ok.` (87 characters, through the lexer): LongSentences FIRES on a document
+-- whose tokens tile the text (41 words), on the first sentence only, terminator included
+set_option maxRecDepth 20000 in
+example : docRule asciiCls noExt (ruleLongSentences env0)
+      ((List.replicate 40 ['a', ' ']).flatten ++ ['o', 'k', '.', ' ', 'o', 'k', '.']) =
+    .ok [⟨⟨0, 83⟩, [], 1, 41⟩] := by decide
+
+/-- **All eleven, on documents**: whichever rule the driver's table `ruleByName` dispatches to, run on
+the tokens of ANY plain-English document (any class table, any in-bounds url / e-mail / hostname lexer,
+any `Env`), returns — no panic — and every lint it reports satisfies `start ≤ end ≤ text length`: the
+first clause of C03 for these rules, with the hypotheses `Tiles` / `tokOK` of the per-rule theorems
+discharged by `on_documents`. -/
+theorem eleven_rules_on_documents (cls : Cls) (ext : Ext) (src : List Char) (hext : ExtOK ext src.length)
+    (env : Env) (name : String) (r : Env → PieceRule) (hr : ruleByName name = some r) :
+    ∃ ls, docRule cls ext (r env) src = .ok ls ∧
+      ∀ l ∈ ls, l.span.start ≤ l.span.stop ∧ l.span.stop ≤ src.length := by
+  obtain ⟨toks, e, hT, hok⟩ := on_documents cls ext src hext
+  simp only [docRule, e]
+  unfold ruleByName at hr
+  split at hr <;> cases hr
+  · exact longSentences_spans_wf env src toks hT
+  · exact currencyPlacement_spans_wf env src toks hT
+  · exact spaces_spans_wf env src toks hT
+  · exact repeatedWords_spans_wf env src toks hT
+  · exact ellipsisLength_spans_wf env src toks hT
+  · exact numberSuffixCapitalization_spans_wf env src toks hT hok
+  · exact correctNumberSuffix_spans_wf env src toks hT
+  · exact unclosedQuotes_spans_wf env src toks hT
+  · exact modalOf_spans_wf env src toks hT
+  · exact anA_spans_wf env src toks hT
+  · exact sentenceCapitalization_spans_wf env src toks hT
+
+/-- non-vacuity of `eleven_rules_on_documents`: a table entry, and the `ExtOK` hypothesis at `the the cat`
+(the rule FIRES there: example above) -/
+example : ruleByName "RepeatedWords" = some ruleRepeatedWords := rfl
+example : ExtOK noExt ['t', 'h', 'e', ' ', 't', 'h', 'e', ' ', 'c', 'a', 't'].length := by intro _ _ _ h; cases h
+/-- … applied: the conclusion at that instance -/
+example : ∃ ls, docRule asciiCls noExt (ruleRepeatedWords env0) ['t', 'h', 'e', ' ', 't', 'h', 'e', ' ', 'c', 'a', 't'] = .ok ls ∧
+    ∀ l ∈ ls, l.span.start ≤ l.span.stop ∧ l.span.stop ≤ 11 :=
+  eleven_rules_on_documents asciiCls noExt _ (by intro _ _ _ h; cases h) env0 "RepeatedWords" _ rfl
+
+/-- non-vacuity of `currencyPlacement_disjoint` with TWO surviving lints (`a 5 $ 3 b 7 $`: three
+candidates, `$ 3` dropped), and its conclusion at that instance -/
+example : docRule asciiCls noExt (ruleCurrencyPlacement env0) ['a', ' ', '5', ' ', '$', ' ', '3', ' ', 'b', ' ', '7', ' ', '$'] =
+    .ok [⟨⟨2, 5⟩, [.replaceWith ['$', '5']], 2, 0⟩, ⟨⟨10, 13⟩, [.replaceWith ['$', '7']], 2, 0⟩] := by decide
+example : [(⟨⟨2, 5⟩, [.replaceWith ['$', '5']], 2, 0⟩ : RuleLint), ⟨⟨10, 13⟩, [.replaceWith ['$', '7']], 2, 0⟩].Pairwise
+    (fun a b => a.span.stop ≤ b.span.start) := by decide
+
+/-- non-vacuity of `modalOfMatch_spans_wf` / `_total`: the three tokens of `could of` satisfy `Ord`, and
+`match_to_lint` FIRES on them -/
+example : Ord ['c', 'o', 'u', 'l', 'd', ' ', 'o', 'f'].length [⟨⟨0, 5⟩, .word⟩, ⟨⟨5, 6⟩, .space 1⟩, ⟨⟨6, 8⟩, .word⟩] ∧
+    modalOfMatch env0 ['c', 'o', 'u', 'l', 'd', ' ', 'o', 'f'] [⟨⟨0, 5⟩, .word⟩, ⟨⟨5, 6⟩, .space 1⟩, ⟨⟨6, 8⟩, .word⟩] =
+      .ok [⟨⟨0, 8⟩, [.replaceWith ['c', 'o', 'u', 'l', 'd', ' ', 'h', 'a', 'v', 'e']], 10, 0⟩] := by
+  refine ⟨⟨by decide, by decide⟩, by decide⟩
+
+/-- the index look-up `ls[l.id]?` in the model of CurrencyPlacement's `remove_overlaps` never misses:
+`removeOverlapsRL` returns exactly one lint per survivor of `removeOverlaps`, with that survivor's span
+(so `currencyPlacement_spans_wf` / `_disjoint` are not true because the `filterMap` lost lints) -/
+theorem removeOverlapsRL_faithful (ls : List RuleLint) :
+    (removeOverlapsRL ls).map (fun l => (l.span.start, l.span.stop))
+      = (removeOverlaps (tagLints 0 ls)).map (fun x => (x.s, x.e)) := by
+  have key : ∀ L : List Lint, (∀ x ∈ L, x ∈ tagLints 0 ls) →
+      (L.filterMap (fun l => ls[l.id]?)).map (fun l => (l.span.start, l.span.stop))
+        = L.map (fun x => (x.s, x.e)) := by
+    intro L
+    induction L with
+    | nil => intro _; rfl
+    | cons x L ih =>
+      intro h
+      obtain ⟨_, _, c, hc, h1, h2⟩ := tagLints_mem 0 ls x (h x List.mem_cons_self)
+      simp only [Nat.sub_zero] at hc
+      simp only [List.filterMap_cons, hc, List.map_cons, h1, h2]
+      rw [ih (fun y hy => h y (List.mem_cons_of_mem _ hy))]
+  exact key _ (fun x hx => C13.removeOverlaps_subset _ x hx)
+
 end Harper.C03
